@@ -352,6 +352,7 @@ func runCtl(o *opts) {
 	for gi, k := range order {
 		g := groups[k]
 		in, v := g.fv.Input, g.fv.Viol
+		in0, v0 := in, v
 		steps := 0
 		shrunk := false
 		if !o.noShrink && ch.Shrink != nil && gi < 6 {
@@ -385,6 +386,21 @@ func runCtl(o *opts) {
 		cmd := exec.Command(self, selfArgs(o, "replay", "-file", path)...)
 		outb, _ := cmd.CombinedOutput()
 		code := cmd.ProcessState.ExitCode()
+		if code != 1 && shrunk && !v.NotReplayable {
+			// the minimised case does not reproduce in a fresh process (the coordinator's own history helped it fail):
+			// fall back to the case as found
+			in, v, shrunk, steps = in0, v0, false, 0
+			rf = &replayFile{Property: o.prop, Tier: o.tier, Seed: o.seed, Input: in, Viol: v, LogHash: "", Shrunk: false, Steps: 0}
+			b, _ = json.MarshalIndent(rf, "", " ")
+			os.WriteFile(path, b, 0o644)
+			cmd = exec.Command(self, selfArgs(o, "replay", "-file", path)...)
+			outb, _ = cmd.CombinedOutput()
+			code = cmd.ProcessState.ExitCode()
+			if code != 1 && ch.ProcessStateIsEvidence {
+				v.NotReplayable = true
+				v.Msg += " [found in a worker process that had generated other grammars before; the same case alone in a fresh process passes: state is carried from one generation to the next]"
+			}
+		}
 		if code != 1 && v.NotReplayable {
 			fmt.Printf("note: %s was found under real concurrency and did not show again in one replay (not exactly replayable)\n", path)
 		} else if code != 1 {
